@@ -170,6 +170,48 @@ func Build(level int) []Entry {
 			addRef(fmt.Sprintf("row-%s-st%x", tdsval.Names[f.DT], st), tdspkg.Data{Row: true, Fmts: []tdspkg.Fmt{g}, Values: []interface{}{vs[i]}, Lens: []int{ls[i]}}, tdspkg.RowFmt{Wide: true, Fmts: []tdspkg.Fmt{g}})
 		}
 	}
+	// ---- BLOB columns. The library's BLOB format reader counts its bytes in its own way (known
+	// finding, see C06), so no protocol-conforming ROWFMT with a BLOB column parses. These entries are
+	// crafted to the dialect the library accepts, so that the BLOB data reader is reachable for the
+	// truncation (C07) and malformed-input (C10) checks; C06 skips them (Origin "crafted").
+	{
+		blobFmt := func(status byte, blobType byte) []byte {
+			body := []byte{1, 0, 0, 0, 0, 0, 1, 'b', status, 0, 0, 0, 9, 0, 0, 0, 0x24, 0, blobType, 0}
+			enc := []byte{0x61, byte(len(body) - 2), 0, 0, 0}
+			return append(enc, body...)
+		}
+		chunk := func(n int, last bool, fill byte) []byte {
+			l := uint32(n)
+			if last {
+				l |= 0x80000000
+			}
+			b := []byte{byte(l), byte(l >> 8), byte(l >> 16), byte(l >> 24)}
+			for i := 0; i < n; i++ {
+				b = append(b, fill+byte(i))
+			}
+			return b
+		}
+		for _, bt := range []byte{3, 4, 5} {
+			for _, st := range []byte{0, 8} {
+				ctx := blobFmt(st, bt)
+				pre := []byte{0xD1}
+				if st == 8 {
+					pre = append(pre, 0)
+				}
+				pre = append(pre, 0) // serialization
+				rows := map[string][]byte{
+					"one-chunk":    hx.Concat(pre, chunk(5, false, 'a'), chunk(0, true, 0)),
+					"three-chunks": hx.Concat(pre, chunk(40, false, 'a'), chunk(40, false, 'k'), chunk(40, false, 'u'), chunk(0, true, 0)),
+					"empty":        hx.Concat(pre, chunk(0, true, 0)),
+					"zero-chunk":   hx.Concat(pre, chunk(0, false, 0), chunk(3, false, 'x'), chunk(0, true, 0)),
+				}
+				for name, row := range rows {
+					e := Entry{Name: fmt.Sprintf("blob-t%d-st%d-%s", bt, st, name), Enc: row, Ctx: ctx, Origin: "crafted"}
+					out = append(out, e)
+				}
+			}
+		}
+	}
 	// ---- packages the library writes itself
 	addLib := func(name string, p tds.Package, ctx tds.Package) {
 		enc, err := hx.Encode(p)
